@@ -39,6 +39,11 @@ CHECKS = {
   technique="Go race detector over repeated concurrent workloads + linearizability checking (porcupine v1.3.0) of client-boundary call/return histories + marker-isolation and exactly-once monitors",
   text="A race-detector build of the worker serves many short concurrent histories (2-16 clients, colliding cache keys, pass/error/restart/rate-counter/penalty-box classes, origin jitter, GOMAXPROCS 1/2/4/16) from one real Interpreter behind httptest.NewServer; every reply must contain only its own marker and its class's flow/restart count, the recorded history must be linearizable against a per-key sequential cache model, a fetch-and-add rate counter and a penalty-box set, and the race detector must report nothing with a falco frame. Real plugin executables (2-4 per statement, 0-5 ms delays) must have every diagnostic reported exactly once.",
   note="Covers only the interleavings the scheduler produced in these runs (counted in the evidence as overlap patterns); porcupine timeouts and transport errors are inconclusive; -race runs with checkptr instrumentation off because the transpiled PCRE trips it."),
+ "C02": dict(
+  category="exploration", design_ref="DESIGN.md §4 C02",
+  technique="runtime monitoring with a reference model: grammar-directed generator emitting an intended tree + token list, rendered under many layouts, parsed by the real parser and compared structurally (first-divergence path); reference grouping by precedence climbing over the property's table",
+  text="Every generated program (all declaration and statement kinds, flat operator chains, escapes, boundary literals, groups, if(), calls) is rendered under canonical, whitespace-free, random-whitespace and commented layouts and parsed by falco; the parsed tree must equal the tree the generator intended. An exhaustive pairwise sweep covers all ordered pairs of binary operators x prefix placement x parenthesisation.",
+  note="Trusts the generator's own model of the grammar (docs/parser.md) and its independent literal tables (Go compile-time constants for numeric values, per-segment decoded text for escapes); the comparison ignores *ast.Meta except the numeric source literal."),
 }
 
 NOT_APPLICABLE = {}
